@@ -104,7 +104,8 @@ def main():
             B, R = consts["bucket_capacity_tokens"], consts["tokens_per_second"]
         except (ValueError, KeyError, IndexError):
             raise base.Inconclusive("cannot read bucket constants: %s" % out[-200:])
-        ups.append(dnslib.Upstream("127.0.1.1", lambda qn, proto, nth, q: [("reply", dnslib.build_reply(q, rcode=3), 0)], name="u1"))
+        # the upstream answers name errors, except for names beginning with "rr": those it REFUSES (and the server relays that)
+        ups.append(dnslib.Upstream("127.0.1.1", lambda qn, proto, nth, q: [("reply", dnslib.build_reply(q, rcode=5 if qn.startswith("rr") else 3), 0)], name="u1"))
         conf_path = os.path.join(d, "erbium.conf")
         open(conf_path, "w").write(CONF)
         p = base.Proc("erbium-dns", [os.path.join(base.BIN, "erbium-dns"), conf_path], d, rust_log="error")
@@ -150,6 +151,9 @@ def main():
         sent, got, _ = flood("127.0.9.3", n1, 20.0 if thorough else 8.0, qprefix="m", servers=SERVERS, long_names=True)
         check_windows("flood-over-three-listeners", got, "127.0.9.3")
         leg.count("flood_queries", len(sent))
+        # a PERMITTED source whose queries the upstream refuses: the REFUSED it is sent (relayed) counts like any other
+        sent, got, _ = flood("127.0.0.77", n1, 10.0 if thorough else 5.0, qprefix="rr")
+        check_windows("flood-relayed-refused", got, "127.0.0.77")
         flood_end = time.monotonic()
         # a client cookie alone (no server part) was never issued by anybody: not exempt
         sent, got, _ = flood("127.0.9.2", 300 if thorough else 150, 3.0, cookie=bytes(range(8)), qprefix="cc")
